@@ -671,6 +671,24 @@ func main() {
                 lines.append(json.dumps({"Key": k + ":R", "In": c["hist"]}))
                 lines.append(json.dumps({"Key": k + ":C", "In": nonloop[:16]}))
             r = common.sh([os.path.join(work, "runner.bin")], inp=("\n".join(lines) + "\n").encode(), timeout=timeout)
+            # solo reference: every base input alone in a FRESH PROCESS of the same binary (global form)
+            from concurrent.futures import ThreadPoolExecutor
+            solo_jobs = [(c, w) for c in usable for w in c["base"]]
+
+            def solo(job):
+                c, w = job
+                h = meta["%s|h" % c["id"]]["pkg"]
+                try:
+                    pr = subprocess.run([os.path.join(work, "runner.bin")], input=(json.dumps({"Key": h, "In": [w]}) + "\n").encode(),
+                                        stdout=subprocess.PIPE, stderr=subprocess.DEVNULL, timeout=60)
+                    for line in pr.stdout.decode(errors="replace").split("\n"):
+                        if line.startswith("{"):
+                            return (c["id"], w, json.loads(line)["out"][0])
+                except Exception:
+                    pass
+                return (c["id"], w, None)
+            with ThreadPoolExecutor(max_workers=16) as ex:
+                res["solo"] = {(cid, w): o for cid, w, o in ex.map(solo, solo_jobs)}
             err = r.stderr.decode(errors="replace")
             if "DATA RACE" in err:
                 res["race"] = err[:3000]
@@ -698,6 +716,26 @@ func main() {
                 if m2:
                     rs.append((m2.group(1), m2.group(2), _ints(m2.group(3)), int(m2.group(4))))
             tsruns[c["id"]] = rs
+        # solo reference for TypeScript: every base input alone in a fresh node process
+        from concurrent.futures import ThreadPoolExecutor
+
+        def tsolo(job):
+            c, w, k = job
+            m = meta["%s|ts" % c["id"]]
+            inf = m["out"] + ".solo%d.json" % k
+            json.dump([w], open(inf, "w"))
+            try:
+                p3 = subprocess.run([node, "--experimental-strip-types", "--no-warnings", m["out"], inf], stdout=subprocess.PIPE, stderr=subprocess.PIPE, timeout=120)
+                for line in p3.stdout.decode(errors="replace").split("\n"):
+                    m3 = re.match(r'END ts "([^"]*)" (\S+) \[([^\]]*)\] (-?\d+) (\d+)', line)
+                    if m3:
+                        return (c["id"], w, [m3.group(2), _ints(m3.group(3)), int(m3.group(4))])
+            except Exception:
+                pass
+            return (c["id"], w, None)
+        tj = [(c, w, k) for c in usable for k, w in enumerate(c["base"])]
+        with ThreadPoolExecutor(max_workers=16) as ex:
+            res["tssolo"] = {(cid, w): o for cid, w, o in ex.map(tsolo, tj)}
     res["tsruns"] = tsruns
     # the model: a pure function of the input (scraped table of the global variant)
     blocks = []
